@@ -59,4 +59,7 @@ RoundRobin(h, alive) ==
 
 \* a script that sleeps is never resumed before its wake-up time
 NoEarlyWake(h) == \A v \in 1..Len(h) : (h[v].wassusp /\ h[v].ran) => h[v].clock >= h[v].wake
+\* a script that waits for a condition (waitUntil; w = 0: it does not wait) goes on only when the condition holds:
+\* held[w] - the statement that makes condition w true has been reached
+WaitHolds(w, held) == w > 0 => held[w]
 =============================================================================
